@@ -168,7 +168,8 @@ bool Units::UnitsImpl::performTestWithHistory(History &history, const UnitsConst
         }
 
         auto importedUnits = model->units(mUnits->importReference());
-        if (importedUnits == nullptr) {
+        if ((importedUnits == nullptr) || (importedUnits.get() == mUnits)) {
+            // Missing, or units that import themselves (a cycle of length one, which the history cannot see).
             return false;
         }
 
